@@ -376,6 +376,55 @@ func ruleFirstMatchingRule(c *Ctx, r *Rule) {
 			g, matchCall = true, call
 		}
 	}
+	// the other spelling: the matching rule is found first by a search (helper or literal called in
+	// place) that returns the first rule whose isMatch holds, or nil; the limiter is consulted under
+	// `found != nil`
+	var foundRule ssa.Value
+	if !g {
+		for _, l := range c.unitGuards(verdict) {
+			op, x, y, ok := cmpLit(l)
+			if !ok || op != token.NEQ || !isNilConst(y) {
+				continue
+			}
+			call, isCall := x.(*ssa.Call)
+			if !isCall {
+				continue
+			}
+			var h *ssa.Function
+			if f := call.Call.StaticCallee(); f != nil && c.inModule(f) {
+				h = f
+			} else if mc, isMC := call.Call.Value.(*ssa.MakeClosure); isMC {
+				h, _ = mc.Fn.(*ssa.Function)
+			}
+			if h == nil || h.Blocks == nil {
+				continue
+			}
+			okAll, n := true, 0
+			for _, ret := range returnsOf(h) {
+				res := retResults(ret)
+				if len(res) != 1 {
+					okAll = false
+					continue
+				}
+				if isNilConst(res[0]) {
+					continue
+				}
+				n++
+				matched := false
+				for _, l2 := range c.unitGuards(ret) {
+					if mcall, ok2 := l2.v.(*ssa.Call); ok2 && l2.pol && mcall.Call.StaticCallee() != nil && mcall.Call.StaticCallee().Name() == "isMatch" && mcall.Call.Args[0] == res[0] {
+						matched = true
+					}
+				}
+				if !matched {
+					okAll = false
+				}
+			}
+			if okAll && n >= 1 {
+				g, foundRule = true, x
+			}
+		}
+	}
 	r.Ob(g, name+"|under-match", verdict.Pos(), "the limiter is consulted only for a matching rule")
 	// returned directly
 	returned := false
@@ -389,6 +438,16 @@ func ruleFirstMatchingRule(c *Ctx, r *Rule) {
 	r.Ob(!again, name+"|single-verdict", verdict.Pos(), "at most one limiter is consulted per event")
 	// the limiter comes from getOrAdd called with the matched rule
 	okRule := false
+	if foundRule != nil {
+		for _, ci := range callsIn(pa) {
+			if f := calleeFunc(ci); f != nil && f.Name() == "getOrAdd" {
+				args := ci.Common().Args
+				if len(args) >= 5 && args[len(args)-1] == foundRule && instrDominates(ci, verdict) {
+					okRule = true
+				}
+			}
+		}
+	}
 	if matchCall != nil {
 		for _, ci := range callsIn(pa) {
 			if f := calleeFunc(ci); f != nil && f.Name() == "getOrAdd" {
